@@ -209,6 +209,15 @@ pub fn build(t: &Value) -> Result<P, String> {
         "then_with" => child(t, "p")?
             .then_with_in_context(ctx_parser::<TI, String, TE>(), |l: String, r: String| l + &r)
             .boxed(),
+        "then_dep" => child(t, "p")?
+            .then_with_in_context(
+                DepElem {
+                    ctx: String::new(),
+                    fatal_on: None,
+                },
+                |l: String, r: String| l + &r,
+            )
+            .boxed(),
         "surround_opt" => surround(
             child(t, "l")?,
             child(t, "p")?,
